@@ -3,6 +3,7 @@ package engine
 import (
 	"fmt"
 	"go/token"
+	"go/types"
 	"strings"
 
 	"golang.org/x/tools/go/ssa"
@@ -261,4 +262,48 @@ func poolNewReturns(p *Prog, g *ssa.Global, typ string) bool {
 		}
 	}
 	return false
+}
+
+// runC13IfaceCompare: `a == b` on two interface values panics at run time when their common
+// dynamic type is not comparable (slices, maps, functions, structs containing them). Values
+// that come out of reflect.Value.Interface() have arbitrary dynamic types, so a comparison of
+// two interface operands on a validation path is a panic source unless one side is the nil
+// constant or the static type guarantees a comparable dynamic type (reflect.Type, error values
+// compared with sentinels are not used here).
+func runC13IfaceCompare(c *Ctx) {
+	p := c.P
+	c.Rule("C13-IFACECMP", "no == / != between two interface values of arbitrary dynamic type on a validation path (use reflect.DeepEqual): uncomparable dynamic types panic", 0)
+	reach, _ := validationReach(p)
+	n := 0
+	var bad []string
+	for _, fn := range p.Funcs {
+		if !reach[fn] {
+			continue
+		}
+		for _, b := range fn.Blocks {
+			for _, ins := range b.Instrs {
+				bo, ok := ins.(*ssa.BinOp)
+				if !ok || (bo.Op != token.EQL && bo.Op != token.NEQ) {
+					continue
+				}
+				_, ix := bo.X.Type().Underlying().(*types.Interface)
+				_, iy := bo.Y.Type().Underlying().(*types.Interface)
+				if !ix || !iy {
+					continue
+				}
+				if isNilConst(bo.X) || isNilConst(bo.Y) {
+					continue
+				}
+				if isNamed(bo.X.Type(), "reflect", "Type") || isNamed(bo.Y.Type(), "reflect", "Type") {
+					continue // dynamic type is always a pointer
+				}
+				n++
+				c.Sites++
+				// map keys found by ranging over the same map are comparable by construction; everything
+				// else (notably reflect.Value.Interface()) is arbitrary
+				bad = append(bad, fmt.Sprintf("%s compares two interface values with %s at %s: if their dynamic type is a slice, a map or a function the comparison panics", fnName(fn), bo.Op, p.Pos(bo.Pos())))
+			}
+		}
+	}
+	c.Check(len(bad) == 0, "C13-IFACECMP", "valid", "interface-equality", token.NoPos, fmt.Sprintf("%d interface comparisons on validation paths, none between arbitrary values", n), uniqJoin(bad, 3))
 }
